@@ -42,7 +42,7 @@ def _alarm_handler(signum, frame):
 
 class RunResult:
     __slots__ = ('exit_code', 'out', 'err', 'exception', 'timed_out', 'cwd_changed',
-                 'env_diff', 'elapsed', 'sandboxes', 'created_dirs')
+                 'env_diff', 'elapsed', 'sandboxes', 'created_dirs', 'leaked_out', 'leaked_err')
 
     def __init__(self):
         self.exit_code = None
@@ -55,6 +55,10 @@ class RunResult:
         self.elapsed = 0.0
         self.sandboxes = []
         self.created_dirs = []  # every directory made through tempfile.mkdtemp during the run (sandbox roots)
+        # in-process runs: what was written to the stdout / stderr of the *process* (file descriptors 1 and 2) instead of
+        # the files given to MainProgram.execute - under the real command line these are the same streams
+        self.leaked_out = ''
+        self.leaked_err = ''
 
     def as_dict(self) -> dict:
         return {k: getattr(self, k) for k in self.__slots__}
@@ -230,6 +234,45 @@ def new_main_program(mem_buff_size: Optional[int] = None):
         io.DEFAULT_BUFFER_SIZE if mem_buff_size is None else mem_buff_size)
 
 
+def _redirect_process_std_fds(ws):
+    """file descriptors 1 and 2 of this process -> files of the workspace (children of Exactly that are not given
+    a stdout of their own inherit them)"""
+    try:
+        sys.stdout.flush()
+        sys.stderr.flush()
+        saved = (os.dup(1), os.dup(2))
+        paths = (os.path.join(ws.obs, '_fd1'), os.path.join(ws.obs, '_fd2'))
+        for fd, path in zip((1, 2), paths):
+            f = os.open(path, os.O_WRONLY | os.O_CREAT | os.O_TRUNC, 0o644)
+            os.dup2(f, fd)
+            os.close(f)
+        return saved, paths
+    except (OSError, ValueError, AttributeError):
+        return None
+
+
+def _restore_process_std_fds(fds):
+    if fds is None:
+        return '', ''
+    saved, paths = fds
+    try:
+        sys.stdout.flush()
+        sys.stderr.flush()
+    except (OSError, ValueError, AttributeError):
+        pass
+    out = []
+    for fd, old, path in zip((1, 2), saved, paths):
+        os.dup2(old, fd)
+        os.close(old)
+        try:
+            with open(path, 'rb') as f:
+                out.append(f.read(20000).decode('utf-8', errors='replace'))
+            os.remove(path)
+        except OSError:
+            out.append('')
+    return out[0], out[1]
+
+
 def run_inproc(ws: Workspace,
                argv: Sequence[str],
                cwd: Optional[str] = None,
@@ -275,10 +318,12 @@ def run_inproc(ws: Workspace,
                 mp = new_main_program(mem_buff_size)
                 # repeating: an alarm that fires inside a GC callback / __del__ is swallowed by the interpreter
                 signal.setitimer(signal.ITIMER_REAL, timeout_s, 0.25)
+                fds = _redirect_process_std_fds(ws)
                 try:
                     res.exit_code = mp.execute(list(argv), StdOutputFiles(fo, fe))
                 finally:
                     signal.setitimer(signal.ITIMER_REAL, 0)
+                    res.leaked_out, res.leaked_err = _restore_process_std_fds(fds)
             except CaseTimeout:
                 res.timed_out = True
             except BaseException as ex:  # SystemExit, KeyboardInterrupt from eval, anything
